@@ -39,7 +39,9 @@ func newMqueue(q Qualifier, rule rule) (Rule, error) {
 		access = strings.Join(r[:size-1], " ")
 		name = r[size-1]
 		if slices.Contains(requirements[MQUEUE]["access"], name) {
-			access += " " + name
+			// The last word is an access, not a queue name
+			access = strings.Join(r, " ")
+			name = ""
 		}
 	}
 	accesses, err := toAccess(MQUEUE, access)
